@@ -230,8 +230,12 @@ close_op = st.tuples(st.just('close'), sref_st).map(list)
 extract_op = st.tuples(st.just('extract'), ref_st, ref_st, blocksize_st).map(list)
 query_op = st.tuples(st.just('query'), st.sampled_from(['list_children', 'walk', 'get_record']), ref_st, ref_st).map(list)
 
-op_st = st.one_of(open_op, open_op, read_op, read_op, read_op, read_op, readinto_op, readinto_op, readall_op,
-                  seek_op, seek_op, seek_op, tell_op, close_op, extract_op, extract_op, query_op)
+_op_st = st.one_of(open_op, open_op, read_op, read_op, read_op, read_op, readinto_op, readinto_op, readall_op,
+                   seek_op, seek_op, seek_op, tell_op, close_op, extract_op, extract_op, query_op)
+# a file is removed and another one added under the same names (what was read before must not come back under them)
+replace_op = st.tuples(st.just('replace'), ref_st, st.integers(0, 1 << 20)).map(list)
+from vf.gen import weighted as _weighted
+op_st = _weighted([(_op_st, 16), (replace_op, 1)])
 
 
 
@@ -915,6 +919,40 @@ class Interp:
             self.col.bump('extract->4GiB:prefix-verified-then-stopped')
         self._check_others()
 
+    def op_replace(self, fref, salt):
+        f = self.files[fref % len(self.files)]
+        if f.get('huge') or f.get('boot') or f.get('shared') or any(s.fidx == f['idx'] for s in self.live):
+            self.col.bump('op-skipped:replace')
+            return
+        r = self.recipe
+        kw = {}
+        if r['rr']:
+            kw['rr_name'] = f['rr_path'].rsplit('/', 1)[1]
+        if r['joliet']:
+            kw['joliet_path'] = f['joliet_path']
+        if r['udf']:
+            kw['udf_path'] = f['udf_path']
+        newsize = [1, 37, 2048, 2049, 300, f['size'] + 1, max(1, f['size'] - 1), 5000][salt % 8]
+        new = content('r%d-%d' % (f['idx'], salt), newsize)
+        what = 'rm_file(%r) + add_fp(%d bytes) under the same names' % (f['iso_path'], newsize)
+        try:
+            self.iso.rm_file(f['iso_path'], **kw)
+            fp = io.BytesIO(new)
+            self._keep.append(fp)
+            self.iso.add_fp(fp, newsize, f['iso_path'], **kw)
+        except Exception as e:   # noqa  (edits are other properties' business; the case ends here, counted)
+            d = self.col.extra.setdefault('replace_failures', {})
+            k = exc_signature(e)
+            d[k] = d.get(k, 0) + 1
+            self.log(what + ' -> raised %r' % (e,))
+            self.ok = False
+            return
+        self.log(what)
+        self.col.bump('op:replace')
+        self.classes.add('has:replace')
+        f.update(size=newsize, data=new, backing='own-fp-%d-r%d' % (f['idx'], salt), where='added', loc=None)
+        self._mark_between('replace')
+
     def op_query(self, which, fref, kref):
         f = self.files[fref % len(self.files)]
         kind = self.kinds[kref % len(self.kinds)]
@@ -1084,7 +1122,7 @@ def make_machine(col):
             self.it.step(op)
 
         @precondition(lambda self: self._ok())
-        @rule(op=st.one_of(extract_op, query_op))
+        @rule(op=st.one_of(extract_op, query_op, replace_op))
         def other(self, op):
             self.it.step(op)
 
